@@ -85,6 +85,21 @@ def ratTrunc (x : Rat) : Int := if x ≥ 0 then x.floor else - (-x).floor
 def pyFactorial (n : Int) : M Int :=
   if n < 0 then throw .valueError else pure ((List.range n.toNat).foldl (fun (acc : Int) (k : Nat) => acc * ((k : Int) + 1)) 1)
 
+/-- `xs[i] = v` for a list (negative indices wrap, `IndexError` out of range) -/
+def pySetAt {α : Type} (xs : List α) (i : Int) (v : α) : M (List α) :=
+  let j : Int := if i < 0 then i + xs.length else i
+  if j < 0 ∨ j ≥ xs.length then throw .indexError else pure (xs.set j.toNat v)
+
+/-- `min(xs)` (`ValueError` on an empty list; the first of several minima, as in Python) -/
+def pyMin {α : Type} [LT α] [DecidableRel (α := α) (· < ·)] : List α → M α
+  | [] => throw .valueError
+  | x :: xs => pure (xs.foldl (fun m y => if y < m then y else m) x)
+
+/-- `max(xs)` -/
+def pyMax {α : Type} [LT α] [DecidableRel (α := α) (· < ·)] : List α → M α
+  | [] => throw .valueError
+  | x :: xs => pure (xs.foldl (fun m y => if m < y then y else m) x)
+
 /-- a cost that may be `float("inf")` -/
 inductive ER
   | fin (q : Rat)
